@@ -1,3 +1,193 @@
-(* C19 - statements (under construction) *)
-From EpyV Require Import Model.AddDelete.
-Example C19_stub : True. Proof. exact I. Qed.
+(* C19 - addition-deletion keeps its population bookkeeping exact.
+   Only statements here; the proofs are in Proofs/AddDelete*.v.
+
+   The model (Model/AddDelete.v) transcribes adddelete.py and the two documented combinations with
+   a compartmented model (the classes of test/test_adddeletesir.py = the cookbook recipe), with the
+   method resolution written out, as programs of the event kernel (Model/Kernel.v) over a world
+   [adworld] = network + compartments + disease loci (a Model/Loci.v state) + the all-nodes locus.
+   [add_step cf w] / [delete_step cf w n] are the event functions add / delete; [ad_run] is a whole
+   run under stochastic (sync = false) or synchronous (sync = true) dynamics for arbitrary oracles
+   (randoms, logarithms, ranks drawn by the scheduler, ranks drawn inside add) and arbitrary fuel.
+
+   [Base cf w]: the network is well formed (edges join nodes, absent nodes carry no attributes, no
+   node listed twice), the all-nodes locus is duplicate-free and has exactly the nodes, and - with a
+   disease - every node carries a compartment.  It holds after set-up and after every event of every
+   run (C19_locus_is_nodes, C19_every_event), so the one-event theorems apply at every event.
+
+   Hypotheses of the run theorems, all read off the live objects by the harness on every run:
+   [cfg_ok] (the all-nodes locus is not among the disease's loci; where the disease hears of edges its
+   loci table is one C01 covers), [event_ok] (delete is registered on the all-nodes locus; the
+   disease's event functions post nothing), [init_ok] (the initial network is a graph without
+   repeated nodes; every node receives an initial compartment). *)
+From Coq Require Import List ZArith QArith Bool Arith.
+From EpyV Require Import Lib.Prelude Model.Kernel Model.Loci Model.Compart Model.AddDelete
+                         Proofs.LociInv Proofs.AddDelete Proofs.AddDeleteSteps Proofs.AddDeleteInv
+                         Proofs.AddDeleteMain Proofs.AddDeleteTop Proofs.AddDeleteExamples.
+Import ListNotations.
+Close Scope Q_scope.
+Close Scope Z_scope.
+
+(* ---------- one event ---------- *)
+
+(* newNodeName returns a name that is not in use (and larger than the order); add creates exactly
+   that node and puts it into the all-nodes locus *)
+Theorem C19_fresh_name : forall cf w, Base cf w ->
+  let i := new_node_name (aw_st w) in
+  ~ In i (st_nodes (aw_st w)) /\ (Z.of_nat (length (st_nodes (aw_st w))) < i)%Z
+  /\ st_nodes (aw_st (add_step cf w)) = st_nodes (aw_st w) ++ [i]
+  /\ aw_all (add_step cf w) = aw_all w ++ [i].
+Proof. exact add_names_fresh. Qed.
+
+(* whenever the draw loop of add returns, the new node has exactly c neighbours, all distinct, none
+   itself, all of them nodes that existed before; these are the only new edges; nothing raised *)
+Theorem C19_new_degree : forall cf w, Base cf w -> aw_stuck w = false -> aw_stuck (add_step cf w) = false ->
+  let i := new_node_name (aw_st w) in
+  let nb := neighbours (aw_st (add_step cf w)) i in
+  length nb = ac_deg cf /\ NoDup nb /\ ~ In i nb /\ (forall j, In j nb -> In j (st_nodes (aw_st w)))
+  /\ st_edges (aw_st (add_step cf w)) = st_edges (aw_st w) ++ map (pair i) nb
+  /\ aw_raised (add_step cf w) = aw_raised w.
+Proof. exact add_degree. Qed.
+
+(* ... and it does return as soon as the ranks supplied by the random source select c distinct
+   existing nodes (with fewer than c other nodes it cannot: Python's `while True` never ends) *)
+Theorem C19_add_progress : forall cf w vs, Base cf w -> aw_stuck w = false ->
+  let i := new_node_name (aw_st w) in
+  NoDup vs -> ac_deg cf <= length vs ->
+  (forall v, In v vs -> In v (st_nodes (aw_st w)) /\ In v (map (draw_at (zsort (zadd i (aw_all w)))) (aw_draws w))) ->
+  aw_stuck (add_step cf w) = false.
+Proof. exact add_progress. Qed.
+
+(* delete removes its node and exactly the edges at that node, from the network and from the locus *)
+Theorem C19_delete_removes_edges : forall cf w n, Base cf w -> In n (st_nodes (aw_st w)) ->
+  let s := aw_st w in let s' := aw_st (delete_step cf w n) in
+  ~ In n (st_nodes s') /\ (forall e, In e (st_edges s') -> touches n e = false)
+  /\ (forall v, In v (st_nodes s') <-> In v (st_nodes s) /\ v <> n)
+  /\ (forall e, In e (st_edges s') <-> In e (st_edges s) /\ touches n e = false)
+  /\ S (length (st_nodes s')) = length (st_nodes s)
+  /\ (forall v, In v (aw_all (delete_step cf w n)) <-> In v (aw_all w) /\ v <> n)
+  /\ aw_raised (delete_step cf w n) = aw_raised w.
+Proof. exact delete_removes. Qed.
+
+(* both events keep the bookkeeping invariant *)
+Theorem C19_events_keep_base : forall cf w, Base cf w ->
+  Base cf (add_step cf w) /\ forall n, In n (st_nodes (aw_st w)) -> Base cf (delete_step cf w n).
+Proof. intros cf w H. split; [apply add_step_base, H | intros n Hn; apply delete_step_base; assumption]. Qed.
+
+(* inheritance combination: C01's invariant for the disease's loci (every locus is exactly the set it
+   is declared to track) is preserved by add and by delete *)
+Theorem C19_inherit_consistent : forall cf, ac_combo cf = Inherit ->
+  wf_loci (ac_tbl cf) = true -> single_orientation (ac_tbl cf) = true ->
+  forall w, Base cf w -> Inv (ac_tbl cf) (aw_st w) ->
+  Inv (ac_tbl cf) (aw_st (add_step cf w)) /\ forall n, Inv (ac_tbl cf) (aw_st (delete_step cf w n)).
+Proof.
+  intros cf Ec Hwf Hso w HB HI. split.
+  - apply add_step_inv; try assumption. unfold tracked_edges. rewrite Ec. reflexivity.
+  - intro n. apply delete_step_inv_inherit; assumption.
+Qed.
+
+(* ---------- whole runs, both dynamics, every oracle ---------- *)
+
+(* the all-nodes locus (as the handlers keep it and as the scheduler sees it) is the node set at the
+   end and after every event *)
+Theorem C19_locus_is_nodes : forall cf n0, cfg_ok cf ->
+  forall procs nloci nodes edges init maxtime adraws,
+  (forall a, In a (concat procs) -> event_ok cf a) -> init_ok cf n0 nloci nodes edges init ->
+  forall sync pf fuel rs ls ds,
+  let r := ad_run cf procs nloci nodes edges init maxtime adraws sync pf fuel rs ls ds in
+  let w := world (r_final r) in
+  NoDup (aw_all w) /\ (forall v, In v (aw_all w) <-> In v (st_nodes (aw_st w)))
+  /\ nth (ac_li cf) (loci (r_final r)) [] = map EN (zsort (aw_all w))
+  /\ Forall (fun sn => NoDup (sn_all sn) /\ forall v, In v (sn_all sn) <-> In v (st_nodes (sn_st sn))) (aw_log w).
+Proof. exact run_locus. Qed.
+
+(* final order = initial order + additions - deletions (unless an addition never returned) *)
+Theorem C19_order : forall cf n0, cfg_ok cf ->
+  forall procs nloci nodes edges init maxtime adraws,
+  (forall a, In a (concat procs) -> event_ok cf a) -> init_ok cf n0 nloci nodes edges init ->
+  forall sync pf fuel rs ls ds,
+  let w := world (r_final (ad_run cf procs nloci nodes edges init maxtime adraws sync pf fuel rs ls ds)) in
+  aw_stuck w = false ->
+  length (st_nodes (aw_st w)) + count_deletes (aw_log w) = n0 + count_adds (aw_log w).
+Proof. exact run_order. Qed.
+
+(* after every event: locus = nodes; every node has a compartment (with a disease); the disease's loci
+   are exact (where it hears of the edges); an added node has exactly its c distinct neighbours, none
+   itself; a deleted node and all its edges are gone *)
+Theorem C19_every_event : forall cf n0, cfg_ok cf ->
+  forall procs nloci nodes edges init maxtime adraws,
+  (forall a, In a (concat procs) -> event_ok cf a) -> init_ok cf n0 nloci nodes edges init ->
+  forall sync pf fuel rs ls ds,
+  Forall (snap_ok cf) (aw_log (world (r_final (ad_run cf procs nloci nodes edges init maxtime adraws sync pf fuel rs ls ds)))).
+Proof. exact run_events. Qed.
+
+(* no call made by add or delete ever raises: delete is only ever handed nodes of the network *)
+Theorem C19_no_exception : forall cf n0, cfg_ok cf ->
+  forall procs nloci nodes edges init maxtime adraws,
+  (forall a, In a (concat procs) -> event_ok cf a) -> init_ok cf n0 nloci nodes edges init ->
+  forall sync pf fuel rs ls ds,
+  aw_raised (world (r_final (ad_run cf procs nloci nodes edges init maxtime adraws sync pf fuel rs ls ds))) = false.
+Proof. exact run_no_exception. Qed.
+
+(* combined with a compartmented model: nodes enter and leave its compartments and loci consistently -
+   at the end and after every event every node has a compartment, and (inheritance combination, and
+   the sequence combination once the recipe routes addEdge to the disease) the loci are exact *)
+Theorem C19_disease_consistent : forall cf n0, cfg_ok cf ->
+  forall procs nloci nodes edges init maxtime adraws,
+  (forall a, In a (concat procs) -> event_ok cf a) -> init_ok cf n0 nloci nodes edges init ->
+  forall sync pf fuel rs ls ds,
+  let w := world (r_final (ad_run cf procs nloci nodes edges init maxtime adraws sync pf fuel rs ls ds)) in
+  (with_disease cf = true -> has_comp (aw_st w))
+  /\ (tracked_edges cf = true -> Inv (ac_tbl cf) (aw_st w))
+  /\ Forall (fun sn => (with_disease cf = true -> has_comp (sn_st sn)) /\ (tracked_edges cf = true -> Inv (ac_tbl cf) (sn_st sn))) (aw_log w).
+Proof. exact run_disease. Qed.
+
+(* ---------- the sequence combination as documented (F11, known finding) ---------- *)
+(* ProcessSequence{SIR, CompartmentedAddDelete} on the complete graph on four infected nodes, degree 2,
+   one addition: node 5 is susceptible and joined to the infected nodes 0 and 1, yet the SI locus is
+   empty - add reaches Process.addEdge, the disease never hears of the edges *)
+Theorem C19_sequence_refuted :
+  let r := f11_run false in
+  let w := world (r_final r) in
+  r_stuck r = false /\ r_events r = 1 /\ aw_stuck w = false /\ aw_raised w = false
+  /\ map sn_kind (aw_log w) = [KAdd 5 [0; 1]]%Z
+  /\ st_nodes (aw_st w) = [0; 1; 2; 3; 5]%Z
+  /\ neighbours (aw_st w) 5%Z = [0; 1]%Z
+  /\ map (getc (aw_st w)) [0; 1; 5]%Z = [Some 2; Some 2; Some 1]%Z
+  /\ nth 0 (st_loci (aw_st w)) [] = []
+  /\ nth 0 (loci (r_final r)) [] = []
+  /\ truth (EdgeLocus 1 2) (aw_st w) = [E 5 0; E 5 1]%Z
+  /\ ~ Inv sir_tbl (aw_st w).
+Proof. exact f11_witness. Qed.
+
+(* the repair proposed in fixes/F11 (the recipe also overrides addEdge and delegates it to the disease)
+   is covered by C19_disease_consistent with ac_combo = Sequence true; on the witness: *)
+Theorem C19_sequence_repaired_witness :
+  let r := f11_run true in
+  let w := world (r_final r) in
+  r_stuck r = false /\ aw_stuck w = false /\ map sn_kind (aw_log w) = [KAdd 5 [0; 1]]%Z
+  /\ nth 0 (st_loci (aw_st w)) [] = [E 5 0; E 5 1]%Z /\ nth 0 (loci (r_final r)) [] = [EE 5 0; EE 5 1]%Z.
+Proof. exact f11_repaired. Qed.
+
+(* ---------- non-vacuity ---------- *)
+(* the hypotheses hold for the documented configurations; a synchronous run of the inheritance
+   combination (path 0-1-2, node 1 infected, degree 1) with two infections, two removals, three
+   additions and three deletions ends, not stuck, with nodes 4 5 6: 3 + 3 = 3 + 3 *)
+Example C19_example_inherit :
+  (cfg_ok (cfg_inherit 1)
+   /\ (forall a, In a (concat (procs_inherit 1 (1 # 2) 1 1)) -> event_ok (cfg_inherit 1) a)
+   /\ init_ok (cfg_inherit 1) 3 3 [0; 1; 2]%Z [(0, 1); (1, 2)]%Z [(0, 1); (1, 2); (2, 1)]%Z)
+  /\ let w := world (r_final ex_inherit_run) in
+     r_stuck ex_inherit_run = false /\ aw_stuck w = false /\ r_events ex_inherit_run = 10
+     /\ count_adds (aw_log w) = 3 /\ count_deletes (aw_log w) = 3 /\ st_nodes (aw_st w) = [4; 5; 6]%Z
+     /\ rev (map sn_kind (aw_log w)) =
+        [KDisease 0 (EE 0 1); KDisease 0 (EE 2 1); KDisease 1 (EN 1); KAdd 4 [0]; KDelete 0;
+         KDisease 1 (EN 2); KAdd 5 [2]; KDelete 2; KAdd 6 [1]; KDelete 1]%Z.
+Proof. split; [exact ex_inherit_hyps|]. cbv zeta. repeat split; vm_compute; reflexivity. Qed.
+
+Example C19_example_other_configurations : forall v c pi pr pa pd,
+  (cfg_ok (cfg_alone c) /\ (forall a, In a (concat (procs_alone pa pd)) -> event_ok (cfg_alone c) a)
+   /\ init_ok (cfg_alone c) 4 1 k4_nodes k4_edges [])
+  /\ (cfg_ok (cfg_sequence v c) /\ (forall a, In a (concat (procs_sequence pi pr pa pd)) -> event_ok (cfg_sequence v c) a)
+      /\ init_ok (cfg_sequence v c) 4 3 k4_nodes k4_edges k4_infected)
+  /\ cfg_ok (cfg_inherit_rev c).
+Proof. intros. split; [apply ex_alone_hyps|]. split; [apply ex_sequence_hyps | apply cfg_inherit_rev_ok]. Qed.
